@@ -19,6 +19,8 @@ class BuiltinMixin:
             h = getattr(self, "bi_" + name, None)
             if h is not None and (name not in self.SPEC_ONLY or fr.kind == "spec"):
                 return h(node, st, fr)
+            if fr.kind == "spec" and (name in self.side.elem_preds or (name.startswith("all_") and name[4:] in self.side.elem_preds)):
+                return self.elem_pred_call(name, node, st, fr)
             if fr.kind == "spec" and name in self.side.specs_rec:
                 macro = self.side.specs_rec[name]
                 nparams = len(macro.args.args)
@@ -515,7 +517,7 @@ class BuiltinMixin:
     # ------------------------------------------------------------------ spec-only functions (contract language)
     SPEC_ONLY = {"card", "implies", "iff", "forall", "exists", "subset", "set_eq", "old", "is_class", "keys_of",
                  "ty_is", "same_class", "unchanged", "fresh_obj", "no_effects", "effects", "attr", "sel", "tuple2", "sval", "ival",
-                 "local", "attr_bool", "dict_values", "word_only", "digit_start", "box_str", "tail", "type_arg", "type_args", "sub_accepts", "attr_set", "accepts", "matches", "is_json", "as_set_of", "distinct", "cls_name", "clsattr", "written_text", "opened_path", "ext", "box_bool", "tl_get", "raw_tq_ok", "is_blank", "attr_of", "eq_str", "mro_of", "as_dict", "as_list", "as_set", "seq_len", "dict_len", "truthy", "dict_get", "pyeval_str", "at", "is_none"}
+                 "local", "list_subset", "list_subset_except", "attr_bool", "dict_values", "word_only", "digit_start", "box_str", "tail", "type_arg", "type_args", "sub_accepts", "attr_set", "accepts", "matches", "is_json", "as_set_of", "distinct", "cls_name", "clsattr", "written_text", "opened_path", "ext", "box_bool", "tl_get", "raw_tq_ok", "is_blank", "attr_of", "eq_str", "mro_of", "as_dict", "as_list", "as_set", "seq_len", "dict_len", "truthy", "dict_get", "pyeval_str", "at", "is_none"}
     SPEC_CONSTS = {}
 
     def bi_card(self, node, st, fr):
@@ -958,3 +960,52 @@ class BuiltinMixin:
         obj = self.ev(node.args[0], st, fr)
         r = self.read_attr(obj, ast.literal_eval(node.args[1]), st, fr)
         return self.unbox(SV(self.box(r), "any"), "bool")
+
+    def bi_list_subset(self, node, st, fr):
+        a = self.as_seq(self.ev(node.args[0], st, fr), st, fr, node)
+        b = self.as_seq(self.ev(node.args[1], st, fr), st, fr, node)
+        return SV(self.ite_map(a.t, lambda x_: self.ite_map(b.t, lambda y_: self.voc.lsubset(x_, y_))), "bool")
+
+    def bi_list_subset_except(self, node, st, fr):
+        a = self.as_seq(self.ev(node.args[0], st, fr), st, fr, node)
+        b = self.as_seq(self.ev(node.args[1], st, fr), st, fr, node)
+        x = self.box(self.ev(node.args[2], st, fr))
+        return SV(self.ite_map(a.t, lambda x_: self.ite_map(b.t, lambda y_: self.voc.lsubset_ex(x_, y_, x))), "bool")
+
+    def elem_pred_call(self, name, node, st, fr):
+        v = self.voc
+        base = name[4:] if name.startswith("all_") else name
+        P = v.fn("ep_" + base, v.Val, z3.BoolSort())
+        ALL = v.fn("all_" + base, v.Val, z3.BoolSort())
+        W = v.fn("wit_" + base, v.Val, z3.IntSort())
+        done = self.__dict__.setdefault("_elempred_done", set())
+        if base not in done:
+            done.add(base)
+            macro = self.side.elem_preds[base]
+            x = self.bv("epx")
+            tmp = St()
+            tmp.env[macro.args.args[0].arg] = SV(x, "any")
+            sfr = Frame(fr.fi, fr.contract, fr.cls, kind="spec")
+            self.init_frame(sfr)
+            body = None
+            for stmt_ in macro.body:
+                if isinstance(stmt_, ast.Return):
+                    body = self.evb(stmt_.value, tmp, sfr)
+            if tmp.facts or tmp.heap:
+                raise Untranslatable(f"element predicate {base} must be heap-independent and fact-free")
+            s_, e_ = self.bv("eps"), self.bv("epe")
+            s2 = self.bv("eps2")
+            j = self.bv("epj", z3.IntSort())
+            self.global_facts += [
+                z3.ForAll([x], P(x) == body, patterns=[P(x)]),
+                ALL(v.snil), ALL(v.tnil),
+                z3.ForAll([s_, e_], ALL(v.sapp(s_, e_)) == z3.And(ALL(s_), P(e_)), patterns=[ALL(v.sapp(s_, e_))]),
+                z3.ForAll([s_, s2], ALL(v.sconcat(s_, s2)) == z3.And(ALL(s_), ALL(s2)), patterns=[ALL(v.sconcat(s_, s2))]),
+                z3.ForAll([s_, j], z3.Implies(z3.And(ALL(s_), 0 <= j, j < v.slen(s_)), P(v.sat(s_, j))), patterns=[z3.MultiPattern(ALL(s_), v.sat(s_, j))]),
+                z3.ForAll([s_], z3.Implies(z3.Not(ALL(s_)), z3.And(0 <= W(s_), W(s_) < v.slen(s_), z3.Not(P(v.sat(s_, W(s_)))))), patterns=[ALL(s_)]),
+            ]
+        arg = self.ev(node.args[0], st, fr)
+        if name.startswith("all_"):
+            seq = self.as_seq(arg, st, fr, node)
+            return SV(self.ite_map(seq.t, lambda t_: ALL(t_)), "bool")
+        return SV(P(self.box(arg)), "bool")
